@@ -261,8 +261,11 @@ Proof.
   assert (Hec : efflen tc c = match t with None => clen c | Some j => j * size end) by (unfold tc; destruct t; reflexivity).
   assert (Hnd : 0 <= len * size <= efflen tc c).
   { rewrite Hec. unfold k, efflen in *. rewrite Ecl in *. destruct t; nia. }
+  assert (Hle : efflen tc c <= clen c).
+  { rewrite Hec. unfold k, efflen, trim_ok in *. rewrite Ecl in *. destruct t; nia. }
   destruct (IH tc (len * size) cvs Hc Hfc Htc Hnd Hcvs) as (c1 & Hof & Hb & Hl1 & Hr).
   set (m := clen c1) in *.
+  assert (Hm0 : 0 <= m <= zlen cvs) by lia.
   exists (Regular c1 size len). cbn [to_ftree of_ftree]. fold tc. rewrite Hof. cbn [bind].
   replace (size <? 0) with false by lia.
   assert (Ecl' : clen (Regular c1 size len) = m / size) by (cbn [clen]; replace (size =? 0) with false by lia; reflexivity).
@@ -275,12 +278,182 @@ Proof.
   split; [reflexivity|]. split; [lia|]. split.
   - rewrite to_list_Regular, Hl1. cbn [bind]. unfold chunks.
     replace (size <? 0) with false by lia. replace (size =? 0) with false by lia. cbn [rmap]. f_equal.
-    assert (Hzm : zlen (take m cvs) = m) by (rewrite zlen_take_min; rewrite Hec in Hb; unfold trim_ok in Htc; destruct t; lia).
+    assert (Hzm : zlen (take m cvs) = m) by (rewrite zlen_take_min; lia).
     rewrite Hzm. rewrite <- map_take. f_equal. unfold take at 2.
     apply chunks_nat_prefix; [exact Hs'| | |].
-    + apply Z2Nat.inj_le; [lia|apply Z.div_pos; lia|]. apply Z.div_le_mono; [lia|]. rewrite Hec in Hb. unfold trim_ok in Htc. destruct t; lia.
+    + apply Z2Nat.inj_le; [lia|apply Z.div_pos; lia|]. apply Z.div_le_mono; lia.
     + rewrite Z2Nat.id by lia. pose proof (Z.mul_div_le m size Hs'). lia.
-    + rewrite Hec in Hb. unfold trim_ok in Htc. destruct t; lia.
+    + lia.
   - cbn [resets]. intros Hres. specialize (Hr Hres). fold m in Hr. rewrite Hr, Hec. unfold k, efflen. rewrite Ecl.
     destruct t as [j|]; [apply Z.div_mul; lia|reflexivity].
 Qed.
+
+Lemma rt_ByteMasked m vw c : rt_at c -> rt_at (ByteMasked m vw c).
+Proof.
+  intros IH t len vs HV Hf Ht Hlen Hvs.
+  cbn [frag16] in Hf. apply andb_true_iff in Hf as [Hfc Hres].
+  apply Valid_ByteMasked_inv in HV as (Hmc & _ & Hc).
+  rewrite to_list_ByteMasked in Hvs. apply bind_Ok in Hvs as (cvs & Hcvs & Hvs).
+  destruct (to_list_clen c cvs Hcvs) as [Hzc Hc0].
+  set (k := efflen t (ByteMasked m vw c)) in *.
+  assert (Hk : 0 <= k <= zlen m) by (unfold k, efflen, trim_ok in *; cbn [clen] in *; pose proof (zlen_nonneg m); destruct t; lia).
+  assert (Em : trim t m = take k m) by (apply trim_as_take; unfold k, efflen; cbn [clen]; [intros ->; reflexivity|intros j ->; reflexivity]).
+  set (m' := take k m) in *.
+  assert (Hzm : zlen m' = k) by (unfold m'; rewrite zlen_take_min; lia).
+  assert (Htc : trim_ok t c) by (unfold trim_ok, k, efflen in *; cbn [clen] in *; destruct t; [lia|exact I]).
+  assert (Hec : k <= efflen t c <= clen c) by (unfold k, efflen, trim_ok in *; cbn [clen] in *; destruct t; lia).
+  destruct (IH t len cvs Hc Hfc Htc ltac:(lia) Hcvs) as (c1 & Hof & Hb & Hl1 & Hr). specialize (Hr Hres).
+  exists (ByteMasked m' vw c1). cbn [to_ftree of_ftree]. rewrite Em. fold m'.
+  replace (zlen m' <? len) with false by (unfold k, efflen in *; cbn [clen] in *; lia).
+  rewrite Hof. cbn [bind]. replace (clen c1 <? zlen m') with false by lia.
+  split; [reflexivity|]. cbn [clen]. split; [lia|]. split; [|intros _; lia].
+  rewrite to_list_ByteMasked, Hl1. cbn [bind]. rewrite Hzm.
+  assert (Ez : zip (iota k) m' = take k (zip (iota (zlen m)) m)).
+  { unfold m'. rewrite <- (iota_take (zlen m) k) by lia. apply zip_take. }
+  rewrite <- (mapM_take _ _ _ k Hvs). rewrite <- Ez. apply mapM_ext_in. intros [i b] Hin.
+  apply zip_In in Hin as [Hi _]. apply iota_In' in Hi.
+  unfold pick_opt. destruct (Bool.eqb _ _); [|reflexivity]. apply get_take. lia.
+Qed.
+
+(* ---------------------------------------------------------------- records *)
+Definition col_prefix (len : Z) (col1 col : list value) : Prop := exists m, len <= m /\ col1 = take m col.
+
+Lemma rt_fields cs t' len : Forall rt_at cs -> forall vss,
+  Forall (Valid None) cs -> forallb frag16 cs = true -> Forall (fun x => trim_ok t' x /\ 0 <= len <= efflen t' x) cs ->
+  mapM to_list cs = Ok vss ->
+  exists cs1 vss1, of_all_rec false (to_ftree_all cs t') len = Ok cs1 /\ Forall (fun c1 => len <= clen c1) cs1 /\
+                   mapM to_list cs1 = Ok vss1 /\ Forall2 (col_prefix len) vss1 vss.
+Proof.
+  induction 1 as [|x xs Hx _ IH]; intros vss HV Hf Ht Hvss.
+  - cbn in Hvss. injection Hvss as <-. exists [], []. cbn. repeat split; constructor.
+  - cbn [mapM] in Hvss. apply bind_Ok in Hvss as (v & Hv & Hvss). apply bind_Ok in Hvss as (vs' & Hvs' & Hvss). injection Hvss as <-.
+    inversion HV as [|? ? HVx HVxs]; subst. cbn [forallb] in Hf. apply andb_true_iff in Hf as [Hfx Hfxs].
+    inversion Ht as [|? ? [Htx Hlx] Htxs]; subst.
+    destruct (Hx t' len v HVx Hfx Htx Hlx Hv) as (c1 & Hof & Hb & Hl1 & _).
+    destruct (IH vs' HVxs Hfxs Htxs Hvs') as (cs1 & vss1 & Hofs & Hbs & Hls & HF2).
+    exists (c1 :: cs1), (take (clen c1) v :: vss1). cbn [to_ftree_all of_all_rec mapM]. rewrite Hof, Hofs, Hl1, Hls. cbn [bind].
+    repeat split.
+    + constructor; [lia|exact Hbs].
+    + constructor; [|exact HF2]. exists (clen c1). split; [lia|reflexivity].
+Qed.
+
+Lemma cols_get len vss1 vss i : Forall2 (col_prefix len) vss1 vss -> i < len ->
+  mapM (fun col : list value => get col i) vss1 = mapM (fun col : list value => get col i) vss.
+Proof.
+  induction 1 as [|c1 c l1 l (m & Hm & ->) _ IH]; intros Hi; [reflexivity|].
+  cbn [mapM]. rewrite get_take by lia. rewrite (IH Hi). reflexivity.
+Qed.
+
+Lemma rt_Record cs ks n : Forall rt_at cs -> rt_at (Record cs ks n).
+Proof.
+  intros IH t len vs HV Hf Ht Hlen Hvs.
+  cbn [frag16] in Hf. rewrite frag16_all in Hf.
+  apply Valid_Record_inv in HV as (Hn & Hlens & Hcs).
+  rewrite to_list_Record, all_lists_mapM in Hvs. apply bind_Ok in Hvs as (vss & Hvss & Hvs).
+  replace (n <? 0) with false in Hvs by lia.
+  set (k := efflen t (Record cs ks n)) in *.
+  assert (Hk : 0 <= len <= k /\ k <= n) by (unfold k, efflen, trim_ok in *; cbn [clen] in *; destruct t; lia).
+  set (t' := rec_trim ks n t).
+  assert (Ht' : Forall (fun x => trim_ok t' x /\ 0 <= len <= efflen t' x) cs).
+  { apply Forall_forall. intros x Hin. rewrite Forall_forall in Hlens. specialize (Hlens x Hin).
+    unfold t', rec_trim, trim_ok, k in *. unfold efflen in *. cbn [clen] in *.
+    destruct ks; destruct t as [j|]; try destruct (j =? n) eqn:E; cbn; lia. }
+  destruct (rt_fields cs t' len IH vss Hcs Hf Ht' Hvss) as (cs1 & vss1 & Hof & Hb & Hl1 & HF2).
+  exists (Record cs1 ks len). rewrite to_ftree_Record, of_ftree_Record. fold t'. rewrite Hof. cbn [bind].
+  assert (Hres : match cs1 with
+                 | [] => if len <? 0 then Err EValue else Ok (Record [] ks len)
+                 | c0 :: rest => if min_list (clen c0) (map clen rest) <? len then Err EValue
+                                 else if len <? 0 then Err EValue else Ok (Record cs1 ks len)
+                 end = Ok (Record cs1 ks len)).
+  { destruct cs1 as [|c0 rest]; [replace (len <? 0) with false by lia; reflexivity|].
+    inversion Hb as [|? ? Hc0 Hrest]; subst.
+    assert (len <= min_list (clen c0) (map clen rest)).
+    { apply min_list_ge; [exact Hc0|]. apply Forall_forall. intros z Hz. apply in_map_iff in Hz as (y & <- & Hy).
+      rewrite Forall_forall in Hrest. exact (Hrest y Hy). }
+    replace (min_list (clen c0) (map clen rest) <? len) with false by lia. replace (len <? 0) with false by lia. reflexivity. }
+  rewrite Hres. split; [reflexivity|]. cbn [clen]. split; [lia|]. split; [|cbn [resets]; discriminate].
+  rewrite to_list_Record, all_lists_mapM, Hl1. cbn [bind]. replace (len <? 0) with false by lia.
+  rewrite <- (mapM_take _ _ _ len Hvs). rewrite iota_take by lia.
+  apply mapM_ext_in. intros i Hi. apply iota_In' in Hi. unfold row. rewrite (cols_get len vss1 vss i HF2) by lia. reflexivity.
+Qed.
+
+(* ---------------------------------------------------------------- assembling *)
+Lemma rt_all c : rt_at c.
+Proof.
+  induction c using content_ind'.
+  - apply rt_Numpy.
+  - intros t len vs _ Hf. discriminate Hf.
+  - apply rt_ListOffset; assumption.
+  - apply rt_ListA; assumption.
+  - apply rt_Regular; assumption.
+  - apply rt_Indexed; assumption.
+  - apply rt_IndexedOption; assumption.
+  - apply rt_ByteMasked; assumption.
+  - intros t len vs _ Hf. discriminate Hf.
+  - intros t len vs _ Hf. discriminate Hf.
+  - intros t0 len vs _ Hf. discriminate Hf.
+  - apply rt_Record; assumption.
+  - intros t len vs _ Hf. discriminate Hf.
+Qed.
+
+Lemma frag16_no_par c : frag16 c = true -> no_par c = true.
+Proof.
+  induction c using content_ind'; cbn [frag16 no_par]; try discriminate; auto.
+  - intros E. apply andb_true_iff in E as [E _]. auto.
+  - intros E. apply andb_true_iff in E as [E _]. auto.
+  - intros E. apply andb_true_iff in E as [_ E]. auto.
+  - intros E. apply andb_true_iff in E as [E _]. auto.
+  - induction H as [|x xs Hx _ IH]; [reflexivity|]. intros E. apply andb_true_iff in E as [E1 E2].
+    rewrite (Hx E1). cbn. exact (IH E2).
+Qed.
+
+(** from_buffers(to_buffers(c)) reproduces c on the fragment: it succeeds, and the result has the same value
+    (to_list), the same type and the same length.
+    FULL STATEMENT (not proved, and false for the pinned code, see [buffers_roundtrip_refuted]):
+      forall c, Valid None c -> exists c', from_buffers (to_buffers c) = Ok c' /\ to_list c' = to_list c /\ type_of c' = type_of c.
+    Missing from the fragment: n-d NumpyArray, EmptyArray, BitMaskedArray, UnmaskedArray, UnionArray, parameters (strings),
+    RegularArray of size 0, ListArray / ByteMaskedArray whose content is a RecordArray (possibly inside RegularArrays),
+    offsets beyond the content for all-empty lists. *)
+Theorem buffers_roundtrip_partial_thm c : Valid None c -> frag16 c = true ->
+  exists c', from_buffers (to_buffers c) = Ok c' /\ to_list c' = to_list c /\ type_of c' = type_of c /\ clen c' = clen c.
+Proof.
+  intros HV Hf. destruct (valid_to_list_total_nopar c None HV (frag16_no_par c Hf)) as (vs & Hvs).
+  destruct (to_list_clen c vs Hvs) as [Hz Hc].
+  destruct (rt_all c None (clen c) vs HV Hf I ltac:(cbn; lia) Hvs) as (c' & Hof & Hb & Hl & _). cbn [efflen] in Hb.
+  exists c'. unfold from_buffers. rewrite from_buffers_is_of_ftree. split; [exact Hof|].
+  split; [rewrite Hl, Hvs; f_equal; apply take_all; lia|]. split; [|lia].
+  eapply from_buffers_type_thm. rewrite from_buffers_is_of_ftree. exact Hof.
+Qed.
+
+(* the fragment is inhabited by non-trivial layouts: offsets not starting at zero, unreachable content, gaps, records *)
+Example buffers_roundtrip_ex :
+  let c := Record [ListOffset I32 [1; 3; 3; 4] (Numpy DInt64 [6] [DZ 9; DZ 1; DZ 2; DZ 3; DZ 4; DZ 7]);
+                   IndexedOption I64 [2; -1; 0] (Regular (Numpy DFloat64 [7] [DZ 1; DZ 2; DZ 3; DZ 4; DZ 5; DZ 6; DNaN]) 2 0);
+                   ByteMasked [1; 0; 1; 1] true (ListA U32 [3; 0; 0; 1] [5; 0; 0; 2; 9] (Numpy DUInt8 [5] [DZ 1; DZ 2; DZ 3; DZ 4; DZ 5]))]
+                  (Some [[120]; [121]; [122]]) 3 in
+  validb None c = true /\ frag16 c = true /\
+  exists c', from_buffers (to_buffers c) = Ok c' /\ to_list c' = to_list c /\ c' <> c.
+Proof.
+  cbv zeta. split; [vm_compute; reflexivity|]. split; [vm_compute; reflexivity|].
+  eexists. split; [vm_compute; reflexivity|]. split; [vm_compute; reflexivity|]. discriminate.
+Qed.
+
+(** The pinned code does not satisfy the full statement: a valid ListOffsetArray over a ByteMaskedArray over a
+    RecordArray with unreachable content is refused (the RecordArray comes back with the 3 rows the offsets need, the
+    mask keeps its 5 entries: "ByteMaskedArray content must not be shorter than its mask"). *)
+Theorem buffers_roundtrip_refuted_thm :
+  exists c, Valid None c /\ from_buffers (to_buffers c) = Err EValue /\ exists vs, to_list c = Ok vs.
+Proof.
+  exists (ListOffset I64 [0; 2; 3]
+            (ByteMasked [1; 1; 0; 1; 1] true (Record [Numpy DInt64 [5] [DZ 0; DZ 1; DZ 2; DZ 3; DZ 4]] (Some [[120]]) 5))).
+  split; [apply validity_exact_gen; vm_compute; reflexivity|]. split; [vm_compute; reflexivity|].
+  eexists. vm_compute. reflexivity.
+Qed.
+
+(** With the proposed repair (children are asked for what the whole rebuilt parent indexes: [fixed] = true) the same
+    layout comes back with its value. *)
+Example buffers_roundtrip_fixed_ex :
+  let c := ListOffset I64 [0; 2; 3]
+             (ByteMasked [1; 1; 0; 1; 1] true (Record [Numpy DInt64 [5] [DZ 0; DZ 1; DZ 2; DZ 3; DZ 4]] (Some [[120]]) 5)) in
+  exists c', from_buffers_gen true (to_buffers c) = Ok c' /\ to_list c' = to_list c.
+Proof. eexists. split; vm_compute; reflexivity. Qed.
